@@ -241,3 +241,6 @@ LEVEL_NOTE = (
     'names of unnamed outputs are not asserted.'
 )
 TECHNIQUE = 'property-based testing (Hypothesis, byte-stream driven grammar generator) + single-rule mutation of well-formed ASTs vs independent oracle'
+
+# coverage-guided (atheris) pass of the thorough tier: (campaign, libFuzzer runs, instrumented module prefixes)
+FUZZ = [('stmt', 30000, ['forml.io.dsl'])]
